@@ -1357,14 +1357,14 @@ class Parser:
             self._expect(TokenType.RPAREN, "Expected ')' after parameters")
             body = self._parse_block_statement()
             value = FunctionExpression(None, params, body)
+            return Property(key, value, kind, computed=computed, method=True)
         elif self._match(TokenType.COLON):
             value = self._parse_assignment_expression()
         else:
             # Shorthand property: {x} means {x: x}
-            if isinstance(key, Identifier):
-                value = key
-            else:
-                raise self._error("Expected ':' after property name")
+            if isinstance(key, Identifier) and not computed:
+                return Property(key, key, kind, computed=False, shorthand=True)
+            raise self._error("Expected ':' after property name")
 
         return Property(key, value, kind, computed=computed)
 
